@@ -795,6 +795,7 @@ func init() {
 			items = append(items, Item{Name: "sanitize-composed-maps", MaxDevs: -1, Run: c10SanitizeComposedScenario})
 			items = append(items, Item{Name: "empty-zog-tags", MaxDevs: -1, Run: c10EmptyTagScenario})
 			items = append(items, Item{Name: "keys-ending-in-a-bracket", MaxDevs: -1, Run: c10BracketKeyScenario})
+			items = append(items, Item{Name: "path-rewriting-formatters", MaxDevs: -1, Run: c10PathFormatterScenario})
 			// keys must not depend on what earlier calls read: sequences that start with a record parsed through any front end
 			items = append(items, callsItemsOpt(tier, "C10", func(class string) bool { return strings.HasPrefix(class, "record") }, true, "depends-on-history", "nested-call-differs", "earlier-result-changed")...)
 			return items
